@@ -47,8 +47,11 @@ func init() {
 	fw.Register(&fw.Prop{
 		ID: "C12", Level: "exploration", Run: runC12, Replay: replayC12,
 		Rule:        "a case = (served tree content, clock, read command, target existing/missing/non-matching, archive selection, window); each is run against the directory and against the URL of a real whispertool server serving that directory; non-trivial = the local run produced output or a not-exist / diff-found classification (not a generic error).",
-		Assumptions: []string{"time:/duration: fields and the text of err: lines (they embed clock readings and base paths) are dropped before comparing", "error classes: nil, diff-found, not-exist (os.IsNotExist), other"},
+		Assumptions: []string{"time:/duration: fields and the text of err: lines (they embed clock readings and base paths) are dropped before comparing", "error classes: nil, diff-found, not-exist (os.IsNotExist), other", "the whole check runs with time.Local = UTC+09:30 (the pinned tests run in UTC)"},
 		NeedsInstr:  []string{"cmd:time.Now"},
+		// local and remote must agree in every zone; client and server (one process here) run at +09:30, so a timestamp
+		// rendered or parsed in the local zone on one side of the wire shifts the remote window by 34200 s
+		ZoneOffsetS: 34200,
 	})
 }
 
